@@ -34,7 +34,9 @@ TPL = {t[0]: t for t in TEMPLATES + ZOO}
 
 DESCRIPTION = {
     "rule": (
-        "fixed template set (one or more per site where a Table is constructed, both analyzers, 11 dialects) x default schema in "
+        "fixed template set (one or more per site where a Table is constructed, both analyzers, 11 dialects) + the dialect zoo (every ansi-written "
+        "template under 26 further sqlfluff dialects: 1,274 pairs, a third of the dialects per seed in quick; pairs that do not parse there are counted "
+        "and skipped) + single-dialect corpus statements x default schema in "
         "{unset, fresh name, a name already used as a qualifier} x mechanism in {environment set before import, environment set after "
         "import, scoped override, none} x process lifetime (zygote imported with or without SQLLINEAGE_DEFAULT_SCHEMA) x 1-3 caller "
         "threads each running a history of analyses under different scoped defaults, pre-empted at every source line of config.py and "
@@ -44,7 +46,7 @@ DESCRIPTION = {
         "flip during a scoped analysis, or a history S1 -> S2 -> none on one thread."
     ),
     "real_code": ["sqllineage/core/models.py (Schema, Table)", "sqllineage/config.py", "both analyzers' table factories", "LineageRunner"],
-    "stubs": ["thread scheduling (baton)", "threading.get_ident as seen by sqllineage.config (simulated identifiers)", "process environment flips by an operator actor"],
+    "stubs": ["thread scheduling (baton)", "threading as seen by sqllineage.config: get_ident / enumerate / current_thread answer with simulated identities; a quarter of the threads of multi-thread runs are unknown to the threading module (raw _thread / C-created)", "process environment flips by an operator actor"],
     "assumptions": [
         "the template set is fixed and committed: the input dimension (programs) is not searched here",
         "the qualifier-fallback site Table(qualifier) for a column qualifier that names no relation in scope is invalid SQL and is not templated",
@@ -53,7 +55,7 @@ DESCRIPTION = {
     ],
     "required_probes": {
         "quick": ["two_defaults_in_flight", "import_time_default_differs", "env_flip_during_scoped", "history_s1_s2_none", "mechanism_env_after_import",
-                  "mechanism_scoped", "mechanism_preimport", "no_default_placeholder", "retry_after_failed_evaluation", "insertion_sweep"],
+                  "mechanism_scoped", "mechanism_preimport", "no_default_placeholder", "retry_after_failed_evaluation", "insertion_sweep", "dialect_zoo_compared", "foreign_thread"],
         "thorough": ["two_defaults_in_flight", "import_time_default_differs", "env_flip_during_scoped", "history_s1_s2_none"],
     },
 }
